@@ -30,7 +30,9 @@ pub fn run(tier: &str, seed: u64, out: &str) {
         let mpk = cc.update_msk(&mut msk).unwrap();
         let mskb = msk.serialize().unwrap().to_vec();
         let mpkb = mpk.serialize().unwrap().to_vec();
-        let (tx, rx) = mpsc::channel::<(usize, usize, Vec<String>)>();
+        let (tx, rx) = mpsc::channel::<(usize, usize, Vec<String>, Vec<Vec<u8>>)>();
+        let mut fresh_all: std::collections::HashSet<Vec<u8>> = Default::default();
+        let mut fresh_count = 0usize;
         for t in 0..threads {
             let cc = cc.clone();
             let (mskb, mpkb) = (mskb.clone(), mpkb.clone());
@@ -39,6 +41,8 @@ pub fn run(tier: &str, seed: u64, out: &str) {
             std::thread::spawn(move || {
                 let mut errs = vec![];
                 let mut calls = 0;
+                // values that must be fresh across threads: encapsulation tags, AEAD nonces, user ids
+                let mut fresh: Vec<Vec<u8>> = vec![];
                 let mut msk = MasterSecretKey::deserialize(&mskb).unwrap();
                 let mpk = MasterPublicKey::deserialize(&mpkb).unwrap();
                 let ok_pol = AccessPolicy::parse(if t % 2 == 0 { "D::A && S::T" } else { "D::A" }).unwrap();
@@ -47,6 +51,8 @@ pub fn run(tier: &str, seed: u64, out: &str) {
                 let mut usk = cc.generate_user_secret_key(&mut msk, &ok_pol).unwrap();
                 for i in 0..per {
                     let (s, x) = cc.encaps(&mpk, &enc_pol).unwrap();
+                    fresh.push(x.serialize().unwrap()[..16].to_vec());
+                    fresh.push(s.to_vec());
                     if cc.decaps(&usk, &x).unwrap() != Some(s) {
                         errs.push(format!("thread {t} iter {i}: decaps does not return the encapsulated secret"));
                     }
@@ -58,11 +64,13 @@ pub fn run(tier: &str, seed: u64, out: &str) {
                     if i % 3 == 0 {
                         let ptx = format!("plaintext {t} {i}");
                         let c = PkeAc::<{ Aes256Gcm::KEY_LENGTH }, Aes256Gcm>::encrypt(&*cc, &mpk, &enc_pol, ptx.as_bytes()).unwrap();
+                        fresh.push(c.1[..12].to_vec());
                         let p = PkeAc::<{ Aes256Gcm::KEY_LENGTH }, Aes256Gcm>::decrypt(&*cc, &usk, &c).unwrap();
                         if p.as_deref().map(|v| v.as_slice()) != Some(ptx.as_bytes()) {
                             errs.push(format!("thread {t} iter {i}: PKE round trip differs"));
                         }
                         let (sec, h) = EncryptedHeader::generate(&cc, &mpk, &enc_pol, Some(b"md"), Some(b"ad")).unwrap();
+                        fresh.push(h.encrypted_metadata.as_ref().unwrap()[..12].to_vec());
                         match h.decrypt(&cc, &usk, Some(b"ad")).unwrap() {
                             Some(c) if c.secret == sec && c.metadata.as_deref() == Some(&b"md"[..]) => {}
                             _ => errs.push(format!("thread {t} iter {i}: header round trip differs")),
@@ -86,7 +94,8 @@ pub fn run(tier: &str, seed: u64, out: &str) {
                         usk = cc.generate_user_secret_key(&mut msk, &ok_pol).unwrap();
                     }
                 }
-                let _ = tx.send((t, calls, errs));
+                fresh.push(usk.serialize().unwrap()[1..65].to_vec());
+                let _ = tx.send((t, calls, errs, fresh));
             });
         }
         drop(tx);
@@ -95,9 +104,16 @@ pub fn run(tier: &str, seed: u64, out: &str) {
         let start = std::time::Instant::now();
         while done < threads {
             match rx.recv_timeout(deadline.saturating_sub(start.elapsed())) {
-                Ok((_, calls, errs)) => {
+                Ok((_, calls, errs, fresh)) => {
                     done += 1;
                     total_calls += calls;
+                    for v in fresh {
+                        fresh_count += 1;
+                        if !fresh_all.insert(v.clone()) && fails.len() < 20 {
+                            fails.push(serde_json::json!({"kind": "impl-oracle", "oracle": "concurrent-freshness", "tags": ["repeated-across-threads"],
+                                "what": format!("a value that must be fresh (encapsulation tag / secret / AEAD nonce / user id) was produced twice by calls on one shared instance with {threads} threads: {}", crate::util::hex(&v)), "lines": [], "case": format!("{threads} threads")}));
+                        }
+                    }
                     for e in errs.into_iter().take(5) {
                         fails.push(serde_json::json!({"kind": "impl-oracle", "oracle": "concurrent-result", "tags": ["result-differs"], "what": e, "lines": [], "case": format!("{threads} threads")}));
                     }
@@ -109,6 +125,7 @@ pub fn run(tier: &str, seed: u64, out: &str) {
                 }
             }
         }
+        let _ = fresh_count;
         configs.push(threads);
     }
     let j = serde_json::json!({
